@@ -9,15 +9,15 @@ import common as C
 
 PID = "C12"
 DRIVER = [("C12", "TfPwaV.Model.WignerF", "WignerF.handle"), ("C12s", "TfPwaV.Gen.SU2F", "SU2F.handle")]
-LEAN_TARGETS = ["TfPwaV.Props.C12", "TfPwaV.Props.C12b", "TfPwaV.Props.C12c", "TfPwaV.Props.C12d", "TfPwaV.Gen.SU2F"]
-PROP_MODULES = ["TfPwaV.Props.C12", "TfPwaV.Props.C12b", "TfPwaV.Props.C12c", "TfPwaV.Props.C12d"]
+LEAN_TARGETS = ["TfPwaV.Props.C12", "TfPwaV.Props.C12b", "TfPwaV.Props.C12c", "TfPwaV.Props.C12d", "TfPwaV.Props.C12e", "TfPwaV.Gen.SU2F"]
+PROP_MODULES = ["TfPwaV.Props.C12", "TfPwaV.Props.C12b", "TfPwaV.Props.C12c", "TfPwaV.Props.C12d", "TfPwaV.Props.C12e"]
 ALL_MODULES = ["TfPwaV.Model.Wigner", "TfPwaV.Proofs.Wigner", "TfPwaV.Proofs.WignerU7", "TfPwaV.Proofs.WignerU8",
-               "TfPwaV.Props.C12", "TfPwaV.Proofs.SU2", "TfPwaV.Props.C12b", "TfPwaV.Props.C12c", "TfPwaV.Props.C12d", "TfPwaV.Proofs.ZHom", "TfPwaV.Proofs.DHom"] + ["TfPwaV.Proofs.CgOrtho" + k for k in "ABCDEFG"]
+               "TfPwaV.Props.C12", "TfPwaV.Proofs.SU2", "TfPwaV.Props.C12b", "TfPwaV.Props.C12c", "TfPwaV.Props.C12d", "TfPwaV.Props.C12e", "TfPwaV.Props.C02d", "TfPwaV.Proofs.SL2C", "TfPwaV.Proofs.ZHom", "TfPwaV.Proofs.DHom"] + ["TfPwaV.Proofs.CgOrtho" + k for k in "ABCDEFG"]
 ASSUMPTIONS = [
     "float table entries are compared with the exact model value sign*sqrt(q) at relative 1e-13 (a wrong factorial, sign or index changes an entry by >= 1e-2 relative)",
     "sympy's CG(...).doit().evalf() is the run-time path of cg_coef; it is compared with the exact Racah value, sympy itself is not verified",
     "D(R1)D(R2)=D(R1R2) is a theorem for every 2j<=8 (D_hom_su2: if the SU2M rotations Rz(a)Ry(b)Rz(g) compose, the D_matrix_conj matrices built from the modelled weights compose; the underlying polynomial-representation homomorphism Z_hom and the identification of the weights with it hold for every N) and is re-checked numerically on the implementation in exactly that form; the Euler-angle round trip IS proved for every element of SU(2) (euler_roundtrip) on the real-pair model of SU2M, which is compared with the real class on every run",
-    "that a rotation-boost-rotation product of the kinematics is unitary (a pure Wigner rotation) is a kinematic fact outside this model; euler_roundtrip takes membership in SU(2) as its hypothesis",
+    "rotation-boost products: Props/C12e.lean proves (through the spinor map of Props/C02d.lean) that two determinant-one products of Rotation_z/y and Boost_z bringing the same massive momentum to rest differ by an element of SU(2) whose Euler angles reproduce it (euler_roundtrip_two_routes; _changeRef/_alignR for the b_matrix/r_matrix accumulation of cal_helicity_angle under the named hypothesis RouteToRest of C02d; euler_roundtrip_rotation_boost_rotation with no hypothesis left); that the matrices the implementation accumulates do bring the momentum to rest is checked by C02 on captured matrices and here by the search (unitarity residual of SU2M products)",
 ]
 
 
@@ -367,7 +367,7 @@ def replay(ctx, payload):
 
 
 MANIFEST = {
-    "text": "Lean theorems: for every spin 2j<=8, all m,m' and ALL real beta (incl. 0 and pi) the small-d matrix built from the modelled weights is orthogonal (d_unitary), via a kernel-checked homogeneous polynomial identity valid for all real s,c (z_poly_unitary) lifted to the reals; Clebsch-Gordan coefficients by Racah's closed form with kernel-checked exact orthonormality over the whole 2j<=8 grid, integer and half-integer (cg_orthonormal); SU2M algebra (associativity, det multiplicative, inv is the two-sided inverse for det 1, Rz/Ry/Bz have det 1) the Euler-angle round trip Rz(gamma)Ry(beta)Rz(alpha) = U for EVERY U in SU(2) incl. beta = 0, pi (euler_roundtrip); and D(R1)D(R2) = D(R1R2) for every 2j<=8 and all angles (D_hom_su2). The model's weights/CG values are compared entry by entry with small_d_weight, small_d_matrix, D_matrix_conj, cg_coef (sympy path) and the bundled cg_table on every run.",
-    "note": "Model = TfPwaV.Wigner (exact Rat/Int). Tie = line-protocol comparison of every table entry and of matrix elements on edge+random angles. templates/SU2.lean.in (real-pair transcription of SU2M) compared op by op with the real class. Unitarity of rotation-boost-rotation products (a kinematic fact) is validated on the implementation (search), not proved. Trusted: Lean kernel, standard axioms, sympy CG evaluation, libm.",
+    "text": "Lean theorems: for every spin 2j<=8, all m,m' and ALL real beta (incl. 0 and pi) the small-d matrix built from the modelled weights is orthogonal (d_unitary), via a kernel-checked homogeneous polynomial identity valid for all real s,c (z_poly_unitary) lifted to the reals; Clebsch-Gordan coefficients by Racah's closed form with kernel-checked exact orthonormality over the whole 2j<=8 grid, integer and half-integer (cg_orthonormal); SU2M algebra (associativity, det multiplicative, inv is the two-sided inverse for det 1, Rz/Ry/Bz have det 1) the Euler-angle round trip Rz(gamma)Ry(beta)Rz(alpha) = U for EVERY U in SU(2) incl. beta = 0, pi (euler_roundtrip), also for products of rotations and boosts that compose to a rotation (euler_roundtrip_two_routes / _changeRef / _alignR / _rotation_boost_rotation: two det-1 products bringing one massive momentum to rest differ by an SU(2) element that get_euler_angle reproduces); and D(R1)D(R2) = D(R1R2) for every 2j<=8 and all angles (D_hom_su2). The model's weights/CG values are compared entry by entry with small_d_weight, small_d_matrix, D_matrix_conj, cg_coef (sympy path) and the bundled cg_table on every run.",
+    "note": "Model = TfPwaV.Wigner (exact Rat/Int). Tie = line-protocol comparison of every table entry and of matrix elements on edge+random angles. templates/SU2.lean.in (real-pair transcription of SU2M) compared op by op with the real class. Rotation-boost products that compose to a rotation: proved to lie in SU(2) and to round-trip through get_euler_angle (Props/C12e.lean via the spinor map of C02d) given that both products bring one massive momentum to rest; that the implementation's accumulated matrices do so is validated (search: unitarity residual; C02: captured matrices). Trusted: Lean kernel, standard axioms, sympy CG evaluation, libm.",
     "technique": "Lean 4 proof (kernel-evaluated exact polynomial/rational identities lifted to the reals) + exhaustive table correspondence with the implementation",
 }
